@@ -37,7 +37,7 @@ func c14(c *Ctx) {
 	wt := "litefs.BackupClient.WriteTx(p0.BackupClient, @@)"
 	c.PathTable("table/streamBackupDB", sb, live, retR, []Row{
 		{Name: "no local database", When: gs(GP("("+db+" == nil)", true)), Expect: mm},
-		{Name: "local position zero", When: gs(GP("ltx.(Pos).IsZero("+local+")", true)), Expect: pat(local + " | nil")},
+		{Name: "nothing written locally, nothing on the service", When: gs(GP("ltx.(Pos).IsZero("+local+")", true), GP("ltx.(Pos).IsZero(p3)", true)), Expect: pat(local + " | nil")},
 		{Name: "service has nothing", When: gs(GP("ltx.(Pos).IsZero(p3)", true)), Expect: pat("litefs.(*Store).streamBackupDBSnapshot(p0, p1, " + db + ")#0 | litefs.(*Store).streamBackupDBSnapshot(p0, p1, " + db + ")#1")},
 		{Name: "service ahead", When: gs(GP("("+local+".TXID < p3.TXID)", true)), Expect: mm},
 		{Name: "same TXID, other checksum", When: gs(GP("("+local+".TXID == p3.TXID)", true), GP("("+local+".PostApplyChecksum == p3.PostApplyChecksum)", false)), Expect: mm},
@@ -47,7 +47,7 @@ func c14(c *Ctx) {
 		{Name: "service reports mismatch", When: gs(GP("errors.As("+wt+"#1, @@)", true)), Expect: pat("zero | out:errors.As(@@)")},
 		{Name: "upload failed", When: gs(GP("("+wt+"#1 == nil)", false)), Expect: pat("zero | fmt.Errorf(@@)")},
 		{Name: "uploaded", When: nil, Expect: pat("ltx.Pos{TXID: {closure:@@ltx.(*Compactor).Header(@@).MaxTXID@@|zero}, PostApplyChecksum: {closure:@@ltx.(*Compactor).Trailer(@@).PostApplyChecksum@@|zero}} | nil")},
-	}, 11, "streamBackupDB decides per database: mismatch error (-> restore) when there is no local copy, the service is ahead, forked, a file is missing or the service refuses; nothing when empty or in sync; snapshot when the service is empty; otherwise upload and report the position of the compacted file that was uploaded",
+	}, 11, "streamBackupDB decides per database: mismatch error (-> restore) when there is no local copy, the service is ahead (also of a local database that has nothing written yet), forked, a file is missing or the service refuses; nothing when both sides are empty or in sync; snapshot when the service is empty; otherwise upload and report the position of the compacted file that was uploaded",
 		"the primary adopts the service's snapshot instead of overwriting it; the position remembered for the next round is what the service actually received (a batch is cut at 256 files)")
 
 	// the batch: remote+1, +1, ..., bounded, in order, all into the compactor that feeds the upload
